@@ -253,6 +253,35 @@ def check_scc_case(case):
                 return fails
     if not _unchanged(G, snap):
         bad('compute_SCCs:frame', 'the graph was modified')
+    # call sequences on ONE graph object: a second complete call, a call after an abandoned (partly consumed) generator,
+    # and a call after the caller added an edge, all give the components of the graph as it is at that call
+    def partition(cs):
+        return sorted((sorted(c, key=repr) for c in cs), key=repr)
+    try:
+        again = [list(c) for c in compute_SCCs(G)]
+        if partition(again) != partition(comps):
+            bad('compute_SCCs:ensures:second_call', 'a second call gives %r, the first gave %r' % (again, comps))
+        G2 = DiGraph(V=list(nodes), E=list(edges))        # (a graph object on which no call was ever completed)
+        it = iter(compute_SCCs(G2))
+        next(it, None)
+        del it
+        after = [list(c) for c in compute_SCCs(G2)]
+        if partition(after) != partition(comps):
+            bad('compute_SCCs:ensures:after_abandoned_generator', 'after a generator abandoned at its first component a call gives %r, expected %r' % (after, comps))
+        order = [v for v in nodes if v in V] + [v for v in V if v not in nodes]
+        missing = [(a, b) for a in reversed(order) for b in order if (a, b) not in E]
+        if missing:
+            a, b = missing[0]        # (add_edge refuses an edge that is already there)
+            G.add_edge(a, b)
+            V2, E2 = view(G)
+            reach2 = _mutual(V2, E2)
+            comps2 = [list(c) for c in compute_SCCs(G)]
+            where2 = {v: i for i, c in enumerate(comps2) for v in c}
+            if sorted(where2, key=repr) != sorted(V2, key=repr) or any(
+                    (where2[u] == where2[v]) != (v in reach2[u] and u in reach2[v]) for u in V2 for v in V2):
+                bad('compute_SCCs:ensures:after_add_edge', 'after add_edge(%r, %r) the components are %r' % (a, b, comps2))
+    except Exception as e:
+        bad('compute_SCCs:raises', 'a later call raised %s: %s' % (type(e).__name__, e))
     return fails
 
 
